@@ -117,6 +117,9 @@ impl<S: TextRenderer> Text<'_, S> {
         let mut position = self.position;
 
         self.text.split('\n').map(move |line| {
+            // remove trailing '\r' for '\r\n' line endings, before the line is measured
+            let line = line.strip_suffix('\r').unwrap_or(line);
+
             let p = match self.text_style.alignment {
                 Alignment::Left => position,
                 Alignment::Right => {
@@ -139,13 +142,7 @@ impl<S: TextRenderer> Text<'_, S> {
 
             position.y += self.line_height();
 
-            // remove trailing '\r' for '\r\n' line endings
-            let len = line.len();
-            if len > 0 && line.as_bytes()[len - 1] == b'\r' {
-                (&line[0..len - 1], p)
-            } else {
-                (line, p)
-            }
+            (line, p)
         })
     }
 }
